@@ -126,6 +126,13 @@ def judge(ctx, sc, im):
                     ctx.fail('default-mode:navigation-stays-in-the-family', sc, {'args': args, 'bad': other[:5]})
         else:
             S = set(b['S'])
+            # the selection itself, from the documents (documented specifier table, as in C08)
+            from props import c08
+            exp_S = {f'{i}:{v}' for i, v, _ in c08.expected([(lx['id'], lx['version'], lx['language']) for _, lx in inst],
+                                                            args.get('lexicon'), args.get('lang'))}
+            if S != exp_S:
+                ctx.fail('selected-lexicons=those-matching-both-the-specifier-and-the-language', sc,
+                         {'args': args, 'got': sorted(S), 'expected': sorted(exp_S), 'installed': [s for s, _ in inst]})
             bad = [(lx, what) for lx, what in refs_in(b) if lx not in S]
             if bad:
                 ctx.fail('every-result-belongs-to-the-selected-lexicons', sc, {'args': args, 'S': sorted(S), 'bad': bad[:5]})
@@ -197,7 +204,7 @@ def process(ctx, scs):
 
 def load_corpus():
     d = leanside.ROOT / 'corpus' / PID
-    return [json.loads(f.read_text())['scenario'] for f in sorted(d.glob('*.json'))] if d.is_dir() else []
+    return [json.loads(f.read_text())['scenario'] for f in sorted(x for x in d.glob('*.json') if not x.name.startswith(('seeded-', 'regress-')))] if d.is_dir() else []
 
 
 def run(ctx):
